@@ -1053,7 +1053,7 @@ def part_capabilities(ctx, app):
                 segs.append('Ins')
             segs.append('Fix %s' % slist(ptxt))
         defs.append('Definition segs_%d : list seg := [%s].' % (k, '; '.join(segs)))
-        hosts = CAP_HOSTS if not ctx.quick else [CAP_HOSTS[(k + j) % len(CAP_HOSTS)] for j in (0, 1, 2)]
+        hosts = CAP_HOSTS if not ctx.quick else [CAP_HOSTS[(2 * k + j) % len(CAP_HOSTS)] for j in (0, 1)]
         for hdr in hosts:
             hdr = dict((h, v.encode('utf-8').decode('latin-1')) for h, v in hdr.items())     # PEP 3333 header text
             res = call_app(app, path, qs, hdr)
@@ -1245,7 +1245,7 @@ def part_app(ctx, skeletons):
                                        r.get('raw_query'), 'corpus ' + fn, r.get('upstream', 'ok')))
                 except Exception as e:  # noqa
                     ctx.problem('harness', 'unreadable corpus file %s: %r' % (fn, e))
-    n = ctx.n(1100, 12000)
+    n = ctx.n(800, 12000)
     for _ in range(n):
         name, path, pairs = ctx.rng.choice(bases)
         if ctx.rng.random() < 0.4:
